@@ -98,6 +98,8 @@ class DnsRecordDnskey(ParsableBase, Serializable):
             key_parser.parse_numeric('exponent_length_two_octets', 2)
             exponent_length = key_parser['exponent_length_two_octets']
         key_parser.parse_mpint('public_exponent', exponent_length)
+        if key_parser['public_exponent'] == 0:
+            raise InvalidValue(key_parser['public_exponent'], cls, 'public_exponent')
         key_parser.parse_mpint('modulus', key_parser.unparsed_length)
         if key_parser['modulus'] <= 1:
             raise InvalidValue(key_parser['modulus'], cls, 'modulus')
